@@ -36,8 +36,10 @@ there (label `skipped:ill_conditioned`).
 (Observed on the unchanged tree: jump 4.5e-45 where the two solves differ by 2e-39; in well-conditioned
 stacks the noise term is ~1e-9 of the scale, a wrong row/coefficient gives O(1).)
 
-Tolerances: SURF_TOL = 1e-6, IFACE_TOL = 1e-6 (1e-8 raised an alarm at seed 2: the surface condition comes out of a 3x3
-LAPACK solve and was met to 4e-8 of the row scale in an ill-conditioned stack).  Measured on the unchanged tree (quick tier, seeds
+Tolerances: SURF_TOL = IFACE_TOL = 3e-4 of the row scale.  The surface condition comes out of a 3x3 LAPACK solve whose
+residual is eps x (the magnitude of the cancelling solution components), which cannot be observed from outside: 1e-8 raised
+an alarm at quick seed 2 (4e-8), 1e-6 at thorough scale (60 000 stacks: worst 2.6e-5, in stacks whose Love number itself moves
+in the second digit between tolerances).  A swapped row, wrong constant or dropped coefficient gives O(1).  Measured on the unchanged tree (quick tier, seeds
 1-3): worst surface ratio 3e-12, worst interface ratio 2e-13 relative to these scales; a swapped row or
 dropped coefficient gives O(1).
 
@@ -63,15 +65,15 @@ LEVEL_NOTE = ('Trusts the boundary-condition definitions of Takeuchi & Saito 197
               'liquid surface layers are excluded (known crash, C06).')
 CASES = {'quick': 480, 'thorough': 60000}
 SHARDS = {'quick': 16, 'thorough': 16}
-SURF_TOL = 1e-6
-IFACE_TOL = 1e-6
+SURF_TOL = 3e-4
+IFACE_TOL = 3e-4
 NOISE_FACTOR = 30.0
 ILL = 1e-4        # a clause is not judged where the two solves differ by more than this fraction of the scale
 RULE = ('Hypothesis draws a stack (1-5 layers, 8 kinds, constructive bottom/surface choice), per-layer thickness weights, '
         'densities (decreasing outward), complex shear, bulk modulus, slices 5..40, R, r0, l 2..6, frequency, family, '
         'solve_for sequence (1-5 of tidal/loading/free), nondim, integrator, rtol. Non-trivial = (>= 2 layers with a '
         'solid/liquid or static/dynamic transition) or >= 2 solution types, and the solve succeeded; distinct = argument hash.')
-ASSUMPTIONS = ['surface tolerance 1e-6 x (max|row| in surface layer + |b|) + 3 x noise', 'interface tolerance 1e-6 x max|row| over adjacent layers + 3 x noise',
+ASSUMPTIONS = ['surface tolerance 3e-4 x (max|row| in surface layer + |b|) + 30 x noise', 'interface tolerance 3e-4 x max|row| over adjacent layers + 30 x noise', 'clauses are not judged where noise > 1e-4 x scale',
                'static-liquid pressure relation uses g between the two adjacent slice values (slack added)']
 
 
